@@ -3,4 +3,4 @@ Require Import DS.Base DS.Runner DS.RunnerScripted.
 Require Import ExtrOcamlBasic.
 Extraction Language OCaml.
 Extraction "../ocaml/gen/c03_model.ml" N.of_nat N.to_nat Z.of_N Z.to_N
-  s_run s_iter_nohalt vars_list nat_str parse_i32.
+  s_run s_iter_nohalt s_init s_exec label_table vars_list nat_str parse_i32.
